@@ -560,7 +560,7 @@ fn main() {
         required.push(cell("cmp-cross", "different-n", "Lut", n));
     }
     for ty in ["Lut", "LutN"] {
-        for k in ["next", "nth", "size_hint", "skip.next", "step_by.take3", "take.count", "take.min/max", "count", "last", "fold"] {
+        for k in ["next", "nth", "size_hint", "skip.next", "step_by.take3", "take.count", "take.min/max", "count", "last", "fold", "min", "max"] {
             required.push(format!("iter-method|{}|{}", k, ty));
         }
     }
